@@ -115,6 +115,11 @@ CHECKS = {
 }
 
 CHECKS.update({
+    "C05": (
+        "Hypothesis-generated lambda lists (legal shapes by construction + illegal mutations) and call shapes (fitting call + mutations) rendered as Hy and as Python; differential against CPython's def/call (bound values, TypeError, compile-time rejection); function bodies differential against the Python def for __doc__, implicit return, generator and coroutine results",
+        "Signatures up to 6 parameters x up to 8 calls each through defn, fn->lambda, fn->def and :async; bodies of 1..4 forms incl. every string-literal flavour, yield, yield :from and nested generator lambdas, sync and async. Sampled.",
+        "CPython 3.12 is the reference; keyword arguments are modelled as moved behind the positionals (docs/syntax.rst); kwargs dict order is not compared.",
+        "signatures", "2/C05"),
     "C03": (
         "enumerated (arity <= 3) and Hypothesis-drawn (arity <= 6) operator applications; four-way differential: compiled macro form, hy.pyops function, CPython evaluating the documented expansion text, macro forms with #*; augmented assignment against Python's own op= over the documented aggregator",
         "All 25 operators at every allowed arity: arity <= 2 over a 36-value pool exhaustively, arity 3 over a reduced pool (full pool in thorough), "
@@ -173,6 +178,8 @@ def main():
              "kind_free_text": "Engine B: Hypothesis-drawn syntax trees rendered to Hy text with independently built expected models, spans and open-construct intervals"},
             {"name": "operators", "path": "vf/props/c03.py", "serves_properties": ["C03"],
              "kind_free_text": "operator/arity/operand-vector enumeration and strategy with CPython as evaluator of the documented expansion"},
+            {"name": "signatures", "path": "vf/props/c05.py", "serves_properties": ["C05"],
+             "kind_free_text": "signature/call/body structures rendered both as Hy and as Python, CPython as reference"},
             {"name": "literals", "path": "vf/props/c22.py", "serves_properties": ["C22", "C23", "C24"],
              "kind_free_text": "per-module structural generators of literal texts (vf/props/c22.py, c23.py, c24.py) with CPython as the reference evaluator"},
         ],
